@@ -400,6 +400,32 @@ def directed_descs(v11: bool) -> list:
         for n in (0, 1, 2):
             out.append(('r', ('l', ('b', item)), {'length': n}))
             out.append(('r', ('l', ('b', item)), {'minLength': n, 'maxLength': n + 1}))
+    # unions whose first member has a narrow lexical space and whose last member takes (almost) any text: every
+    # literal that the first member wrongly accepts or refuses changes the MEMBER, hence the value, of a union that
+    # stays valid (first-match rule observed through the value, not the verdict)
+    firsts: list = [('b', x) for x in ('date', 'dateTime', 'gYear', 'gDay', 'time', 'duration', 'int', 'decimal', 'boolean',
+                                       'hexBinary')]
+    firsts += [('r', ('b', 'date'), {'enumeration': ['2000-01-01Z', '2000-06-15+02:00']}),
+               ('r', ('b', 'gDay'), {'enumeration': ['---15Z', '---01']}),
+               ('r', ('b', 'duration'), {'enumeration': ['P1D', 'PT24H', 'P1Y', 'P12M']}),
+               ('r', ('b', 'decimal'), {'fractionDigits': 2}),
+               ('r', ('b', 'int'), {'maxInclusive': '10'})]
+    if v11:
+        firsts += [('b', 'dayTimeDuration'), ('b', 'yearMonthDuration'), ('b', 'dateTimeStamp'),
+                   ('r', ('b', 'dayTimeDuration'), {'enumeration': ['PT24H', 'PT1M']}),
+                   ('r', ('b', 'dayTimeDuration'), {'enumeration': ['P1D', 'PT60S']}),
+                   ('r', ('b', 'yearMonthDuration'), {'enumeration': ['P1Y', 'P12M']}),
+                   ('r', ('b', 'date'), {'explicitTimezone': 'required'})]
+    for k, first in enumerate(firsts):
+        out.append(('u', [first, ('b', 'string')]))
+        if k % 3 == 0:
+            # (named members come after the anonymous ones in the built type: keep `first` first)
+            out.append(('u', [first if first[0] != 'b' else ('r', first, {}), ('r', ('b', 'token'), {'maxLength': 12})]))
+        if k % 4 == 0:
+            out.append(('l', ('u', [first, ('b', 'token')])))
+    out.append(('u', [('r', ('b', 'dayTimeDuration' if v11 else 'duration'), {'enumeration': ['PT24H', 'PT1M']}),
+                      ('r', ('b', 'short'), {'minExclusive': '-32768'}),
+                      ('r', ('r', ('b', 'normalizedString'), {'minLength': 4, 'maxLength': 5}), {'minLength': 4})]))
     return out
 
 
@@ -708,6 +734,86 @@ def known_match(case: dict, detail: Any) -> Optional[str]:
     return None
 
 
+_MEMBER_TYPES: dict = {}
+
+
+def _member_type(t: Any, v11: bool, m: Any) -> Any:
+    """the real type object of one union member description, built on its own (cached)"""
+    if m[0] == 'b':
+        return t.maps.types[XSD + m[1]]
+    key = ('1.1' if v11 else '1.0') + json.dumps(m, sort_keys=True, default=str)
+    if key not in _MEMBER_TYPES:
+        if len(_MEMBER_TYPES) > 4000:
+            _MEMBER_TYPES.clear()
+        import xmlschema
+        cls = xmlschema.XMLSchema11 if v11 else xmlschema.XMLSchema10
+        _MEMBER_TYPES[key] = cls(HEAD + f'<xs:simpleType name="T">{desc_xsd(m)}</xs:simpleType></xs:schema>').types['T']
+    return _MEMBER_TYPES[key]
+
+
+def union_member_finding(case: dict, value: Any, sval: Any) -> Optional[str]:
+    """A union (possibly restricted, possibly the item type of a list) that the XSD reading and the implementation
+    both accept, with values of different members.  Exact rule: take the members in the order of the built type;
+    at the FIRST member where the verdict of the reading and the verdict of the real member type on the item differ,
+    that difference on that member alone must be matched by `known_match` (C02-F6/F7/F11: a date/time or duration
+    member accepts or refuses the literal), and the value the union returned for the item must be the value of the
+    first member the implementation accepts.  Items on which the two agree on the member must denote the XSD value.
+    Anything else is not explained (None -> reported as a failure)."""
+    t, oracle = case.get('_t'), case.get('_oracle')
+    if t is None or oracle is None:
+        return None
+    d, v11, text = case['desc'], case.get('v') == '1.1', case['text']
+    core = d
+    while core[0] == 'r':
+        core = core[1]
+    if core[0] == 'l':
+        inner = core[1]
+        while inner[0] == 'r':
+            inner = inner[1]
+        items = [x for x in L.xsd_collapse(text).split(' ') if x]
+        if inner[0] != 'u' or not isinstance(value, list) or len(items) != len(value) or sval is None or \
+                sval[0] != 'l' or len(sval[1]) != len(items):
+            return None
+        triples = list(zip(items, value, sval[1]))
+    elif core[0] == 'u':
+        inner, triples = core, [(text, value, sval)]
+    else:
+        return None
+    found: list = []
+    try:
+        for item, val, sv_item in triples:
+            fid, first_impl = None, None
+            agreed = False
+            for m in union_members_in_built_order(inner):
+                r = spec_type(m, v11, item) if fid is None else None
+                if r == 'unjudged':
+                    return None
+                mv, errs = _member_type(t, v11, m).decode(item, validation='lax', datetime_types=True, binary_types=True)
+                ok = not errs
+                if ok and first_impl is None:
+                    first_impl = (mv,)
+                if fid is None and r is not None and r[0] != ok:
+                    kind = 'spec-valid-impl-invalid' if r[0] else 'spec-invalid-impl-valid'
+                    fid = known_match({'v': case.get('v'), 'desc': m, 'text': item}, {'kind': kind, 'what': 'verdict'})
+                    if fid is None:
+                        return None
+                elif fid is None and ok:
+                    agreed = True       # same member for both
+                if first_impl is not None and (fid is not None or agreed):
+                    break
+            if first_impl is None or not py_equal(first_impl[0], val):
+                return None
+            if fid is not None:
+                found.append(fid)
+            elif value_denotes(val, sv_item, item):
+                return None             # same member, wrong value: not a union effect
+    except Exception:   # noqa  (member not buildable on its own / escapes: leave it to the failure report)
+        return None
+    finally:
+        oracle.take()
+    return found[0] if found else None
+
+
 def _dt_enum_literals(d: Any) -> list:
     out: list = []
     if d[0] == 'r':
@@ -900,10 +1006,12 @@ def one_case(ctx: Ctx, oracle: L.Oracle, batch: Optional[Batch], v11: bool, labe
         elif valid:
             bad = value_denotes(impl['value'], sval, text)
             if bad:
-                fid = known_match(case, {'kind': 'spec-invalid-impl-valid'}) if _contains_union(d) else None
-                if fid == 'C02-F11':
-                    # a union member accepted the text through the time-zone equality defect
-                    ctx.known_hit(fid, _pub(case), bad)
+                fid = union_member_finding(case, impl['value'], sval) if _contains_union(d) else None
+                if fid:
+                    # the union is valid for the reading and for the implementation, but through different members:
+                    # the first member at which the two verdicts part is an instance of a listed finding
+                    # (C02-F6/F7/F11 make a date/duration member accept or refuse the text)
+                    ctx.known_hit(fid, _pub(case), {'kind': 'union-member', 'what': bad})
                     case['_known'] = fid
                 elif L.has_py_ws(text):
                     case['_pyws_pending'] = {'kind': 'value', 'what': bad}
